@@ -217,6 +217,33 @@ fn apply_extra(bench: &Bench, world: &World, extra: &Extra) {
     }
 }
 
+/// Host names in rsync URIs are case-insensitive: routinator keeps its
+/// local copy and its store under the lower-cased host. Gives a URI read
+/// back from the cache directory the spelling the world uses for that CA.
+pub fn spell(world: &World, uri: &str) -> String {
+    for ca in &world.cas {
+        if uri.len() >= ca.repo.len() && uri.is_char_boundary(ca.repo.len())
+            && uri[..ca.repo.len()].eq_ignore_ascii_case(&ca.repo)
+        {
+            return format!("{}{}", ca.repo, &uri[ca.repo.len()..])
+        }
+    }
+    uri.to_string()
+}
+
+/// The fake rsync is asked for the canonical (lower-case) module URI: make
+/// server directories of mixed-case hosts reachable under that name too.
+fn alias_lower_case_hosts(server: &Path) {
+    let Ok(read) = fs::read_dir(server) else { return };
+    for entry in read.filter_map(|e| e.ok()) {
+        let name = entry.file_name().to_string_lossy().into_owned();
+        let lower = name.to_ascii_lowercase();
+        if lower != name && entry.path().is_dir() {
+            copy_dir(&entry.path(), &server.join(lower));
+        }
+    }
+}
+
 /// Plays runs `from..` of `xs` on `bench` (which holds the state after the
 /// runs before `from`).
 pub fn play_on(bench: &Bench, builder: &Builder, xs: &XScenario, from: usize) -> Vec<XObs> {
@@ -239,13 +266,18 @@ pub fn play_on(bench: &Bench, builder: &Builder, xs: &XScenario, from: usize) ->
         let pre_store = if run.tamper.is_empty() && xs.extras_of(idx).is_empty() { None }
             else { Some(bench.store()) };
         let served = bench.serve(builder, &scn.world, &run.serve);
+        alias_lower_case_hosts(&bench.server);
         install_order(&run.order);
         let mut opts = scn.opts.clone();
         if let Some(update) = run.update { opts.update = update }
         let out = if xs.real_process { run_process(bench, &opts) } else { bench.run(&opts) };
         install_order(&Order::Random);
         res.push(XObs {
-            obs: RunObs { out, store: bench.store(), local: local_copy(bench), served },
+            obs: RunObs {
+                out, store: bench.store(),
+                local: local_copy(bench).into_iter().map(|(uri, bytes)| (spell(&scn.world, &uri), bytes)).collect(),
+                served,
+            },
             pre_store,
             files: dump_files(&bench.cache),
             listing: bench.cache_listing(),
@@ -335,7 +367,7 @@ pub fn render(builder: &Builder, xs: &XScenario, obs: &[XObs]) -> (String, Strin
         items.dedup();
         let mut files = Vec::new();
         for file in &ob.files {
-            let id = enc.uris.get(&file.uri);
+            let id = enc.uris.get(&spell(&scn.world, &file.uri));
             let text = match file.kind {
                 FileKind::Garbage => format!("{id}:G"),
                 FileKind::Attempt(t) => format!("{id}:A{t}"),
